@@ -6,8 +6,9 @@ Property theorems only, about `handleNeed` / `Node.serve` of the executable node
 `Node.RowsForward`) are in `Corro/Lemmas/NodeServe.lean`.
 
 All theorems quantify over ANY node state `n` (not only reachable ones); the only side condition,
-where stated, is `Node.RowsForward n` (every durable sequence row has `lo ≤ hi ≤ last`, which
-`bufferChunk` maintains: `Lemmas/NodeSeq.lean`).
+where stated, is `Node.RowsForward n` (every durable sequence row has `lo ≤ hi ≤ last`; the
+`lo ≤ hi` half and "all rows of a version carry the version's `last_seq`" are part of the invariant
+`Consistent` that `deliver` maintains for well-formed inputs, see `Props/C06.lean`).
 
 In the model every version is served as ONE chunk (`Node.live` returns all live changes of the
 version; the correspondence keeps versions small so `ChunkedChanges` never splits; the tiling of
